@@ -725,7 +725,7 @@ func (s *Sim) doGetSub(op Op) *Step {
 		wantErr = "missing"
 	} else {
 		var doc any
-		if err := json.Unmarshal(pre.Raw, &doc); err != nil {
+		if err := decodeExact(pre.Raw, &doc); err != nil {
 			wantErr = "any"
 		} else if _, isObj := doc.(map[string]any); !isObj {
 			wantErr = "any"
@@ -755,7 +755,7 @@ func (s *Sim) doGetSub(op Op) *Step {
 		s.report([]string{"C18"}, "panic", "GetSubDocRaw panicked: "+res.ErrMsg)
 	case wantErr == "" && res.Err != "":
 		s.report([]string{"C18"}, "getsub.refused", fmt.Sprintf("GetSubDocRaw(%q) failed with %s (%s) but the property exists: %s", op.Path, res.Err, res.ErrMsg, trunc(wantVal)))
-	case wantErr == "" && !jsonEqual(res.Val, wantVal):
+	case wantErr == "" && !jsonEqualExact(res.Val, wantVal):
 		s.report([]string{"C18"}, "getsub.value", fmt.Sprintf("GetSubDocRaw(%q) = %s, the document holds %s", op.Path, trunc(res.Val), trunc(wantVal)))
 	case wantErr == "" && res.CasOut != pre.RawCas:
 		s.report([]string{"C18"}, "getsub.cas", fmt.Sprintf("GetSubDocRaw returned CAS %d, the document has %d", res.CasOut, pre.RawCas))
